@@ -227,7 +227,10 @@ DProj(s, L) == LET R == DProjSet(s, L) IN
 \* documented rules beyond the grammar
 K_config == <<".", "c", "o", "n", "f", "i", "g">>
 K_unit   == <<".", "u", "n", "i", "t">>
-KnownOrders == {<<"a", "l", "p", "h", "a">>, <<"n", "u", "m">>}
+\* alpha and num are the documented named orders; "first" is the name the parser's own
+\* documentation gives to the default order and is accepted as well.  Anything else -
+\* in particular the parser-internal marker "fixed" - is an unknown sort order.
+KnownOrders == {<<"a", "l", "p", "h", "a">>, <<"n", "u", "m">>, <<"f", "i", "r", "s", "t">>}
 RECURSIVE TreeKeys(_)
 TreeKeys(t) == IF t.op \in {"lit", "re"} THEN {t.k}
                ELSE UNION {TreeKeys(t.a[i]) : i \in 1..Len(t.a)}
